@@ -52,6 +52,21 @@ def configs(quick):
             ("deep3", (3, 3, [0, 1], small, [("1", -1), ("4", 0)]))]
 
 
+def noncanonical(text, cols, mode):
+    """the same notes written with twice the rows per measure (and, sometimes, a trailing blank measure)"""
+    zero = "0" * cols
+    players = []
+    for ptext in text.split("&"):
+        measures = []
+        for m in ptext.split(","):
+            rows = [r for r in m.split("\n") if r.strip()]
+            measures.append("\n".join(x for r in rows for x in (r, zero)))
+        if mode % 2:
+            measures.append("\n".join([zero] * 4))
+        players.append("\n,\n".join(measures) + "\n")
+    return "&\n".join(players)
+
+
 def encode_record(rid, notes, cols):
     """run from_notes on the stream; returns the C2S record"""
     from simfile.notes import NoteData
@@ -71,7 +86,12 @@ def encode_record(rid, notes, cols):
             return rec
         rec["back"] = [nc.proj_note(x) for x in back]
         rec["columns"] = nd.columns
-        rec["text2"] = cps(str(NoteData.from_notes(back, cols)))
+        # second pass: from the notes read back, or from a NoteData OBJECT whose text holds the same notes in a
+        # non-canonical layout (every row followed by an empty row, an extra blank measure at the end)
+        if (mode // 3) % 3 == 0 and text.strip():
+            rec["text2"] = cps(str(NoteData.from_notes(NoteData(noncanonical(text, cols, mode)), cols)))
+        else:
+            rec["text2"] = cps(str(NoteData.from_notes(back, cols)))
     except Exception as e:  # noqa
         rec["st"] = type(e).__name__
     return rec
